@@ -26,6 +26,12 @@ func (i *IllegalParam) Cause() error {
 	return i.cause
 }
 
+// StackTrace 获取错误的堆栈信息; IllegalParam 不记录堆栈, 实现该方法使其满足 Traceable 接口,
+// 这样 Cause/CauseBy 才能沿着 cause 链继续追溯
+func (i *IllegalParam) StackTrace() []Frame {
+	return nil
+}
+
 // NewIllegalParamError 创建参数异常
 // paramName 参数名
 // paramValue 参数值
